@@ -1,6 +1,14 @@
 """Declarations of the C14 check (theorem list, trusted base, texts)."""
 THEOREMS = [
-    'CpProofs.C14.lookup_erase_self',
+    'CpProofs.C14.C14_no_fixation',
+    'CpProofs.C14.C14_unknown_id_replaced',
+    'CpProofs.C14.C14_fresh_not_live',
+    'CpProofs.C14.C14_regenerate_fresh',
+    'CpProofs.C14.regen_total',
+    'CpProofs.C14.C14_sweep_exact_ram',
+    'CpProofs.C14.C14_sweep_exact_file',
+    'CpProofs.C14.C14_boundary_tick',
+    'CpProofs.C14.C14_torn_file',
 ]
 TRUSTED_BASE = [
     'pickle is a parameter of the model: the torn-file theorem is relative to the contract "a proper prefix of a '
